@@ -162,11 +162,14 @@ def edwards_status(repo=None, verifier=None):
         _STATIC["edw"] = dict(ok=False, theorems=set(), why="module constants Q/d/I unreadable or Q != 2^255-19")
         return _STATIC["edw"]
     gen, errors = generate_defs(repo, vals)
-    ext = os.path.join(LEAN_DIR, "EdwardsExtra.lean")
-    exttext = open(ext).read() if os.path.exists(ext) else ""
+    exttext = ""
+    for extra_file in ("EdwardsExtra.lean", "EdwardsGroup.lean"):
+        ext = os.path.join(LEAN_DIR, extra_file)
+        if os.path.exists(ext):
+            exttext += "\n" + open(ext).read()
     text = open(hdr).read() + "\n" + gen + "\n" + open(prf).read() + "\n" + exttext
     r = run_lean(text, "Edwards")
-    names = set(re.findall(r"^\s*(?:theorem|lemma)\s+([A-Za-z_0-9']+)", open(prf).read() + exttext, re.M))
+    names = set(re.findall(r"^\s*(?:theorem|lemma|instance|def)\s+([A-Za-z_0-9'.]+)", open(prf).read() + exttext, re.M))
     _STATIC["edw"] = dict(ok=r["ok"] and not errors, theorems=names, why=(str(errors) if errors else r["tail"][-400:]), seconds=r["seconds"], cached=r["cached"], gen_errors=errors, sha=r["sha"])
     return _STATIC["edw"]
 
